@@ -332,6 +332,9 @@ def chain_rules(rep, prog):
         return
     outer = [kv for kv in loops if kv[1]["iter"] == ("ext", "range", (p,), ())]
     if len(outer) != 1:
+        if any(kv[1]["iter"] is None for kv in loops):
+            rep.unk("CHAIN.roots", fwhere(f), "the roots are enumerated by a while loop: the counting form is not read")
+            return
         rep.bad_form("CHAIN.roots", fwhere(f), "no loop over range(p): not one graph per root position")
         return
     lo, lout = outer[0]
